@@ -1843,6 +1843,10 @@ func (t *http2Client) keepalive() {
 				outstandingPing = false
 				t.kpDormant = true
 				t.kpDormancyCond.Wait()
+				// Only bytes read after waking up count as read activity for
+				// the ping that is about to be sent: a byte read while dormant
+				// must not cancel that ping's timeout.
+				prevNano = atomic.LoadInt64(&t.lastRead)
 			}
 			t.kpDormant = false
 			t.mu.Unlock()
